@@ -1,6 +1,26 @@
 (* pinned translation of the pinned revision of /repo (tools/rustfun.py --pin); fragments per function,
    used as fallback text when a function cannot be located or translated *)
 
+(* STRUCT AlwaysMatch = {} *)
+(* STRUCT Bound = enum Included | Excluded | Unbounded *)
+(* STRUCT CheckSummer = {sum: u32} *)
+(* STRUCT Complement = (A) *)
+(* STRUCT Fst = {meta: Meta, data: D} *)
+(* STRUCT Intersection = (A, B) *)
+(* STRUCT Output = (u64) *)
+(* STRUCT PackSizes = (u8) *)
+(* STRUCT Slot = {idx: usize, input: Vec < u8 >, output: Output} *)
+(* STRUCT StartsWith = (A) *)
+(* STRUCT State = enum OneTransNext | OneTrans | AnyTrans | EmptyFinal *)
+(* STRUCT StateAnyTrans = (u8) *)
+(* STRUCT StateOneTrans = (u8) *)
+(* STRUCT StateOneTransNext = (u8) *)
+(* STRUCT Str = {string: & [ u8 ]} *)
+(* STRUCT StreamBuilder = {fst: FstRef < >, aut: A, min: Bound, max: Bound} *)
+(* STRUCT StreamWithStateBuilder = {fst: FstRef < >, aut: A, min: Bound, max: Bound} *)
+(* STRUCT Subsequence = {subseq: & [ u8 ]} *)
+(* STRUCT Union = (A, B) *)
+
 Inductive src_Bound : Type :=
   | src_Bound_Included (x0 : list N)
   | src_Bound_Excluded (x0 : list N)
